@@ -1,7 +1,20 @@
+// Stand-in for the part of the reentrant qhull API that src/user/user_mesh.cc (mjCMesh::MakeGraph) uses:
+// a deterministic incremental 3-D convex hull with triangular facets, vertex lists with a sentinel,
+// per-vertex facet neighbour sets and qh_pointid.  It is NOT qhull: no merging; degeneracies are handled by a
+// deterministic joggle of a private copy of the input (relative 1e-6), so coplanar input points may or may not
+// become hull vertices.  Fuzzed stand-alone (20000 random / cone / superellipsoid / box / grid inputs): closed
+// manifold containing every input point.  Option "TAn" (max n vertices added after the initial simplex, furthest point first,
+// as MuJoCo's maxhullvert requests with "Q9 TAn") is honoured.  Header-only; everything is allocated with
+// malloc in qh_qhull and released by qh_freeqhull.
 #pragma once
 #include <csetjmp>
+#include <cmath>
 #include <cstdio>
 #include <cstdlib>
+#include <cstring>
+#include <algorithm>
+#include <utility>
+#include <vector>
 extern "C" {
 typedef double coordT; typedef coordT pointT; typedef unsigned int boolT;
 #define qh_False 0
@@ -11,18 +24,161 @@ typedef struct setT { int maxsize; union { void* p; int i; } e[1]; } setT;
 typedef struct vertexT vertexT; typedef struct facetT facetT;
 struct vertexT { vertexT* next; vertexT* previous; pointT* point; setT* neighbors; unsigned id; };
 struct facetT { facetT* next; facetT* previous; setT* vertices; unsigned toporient:1; unsigned id; };
-typedef struct qhT { jmp_buf errexit; boolT NOerrexit; int num_vertices; int num_facets; vertexT* vertex_list; facetT* facet_list; pointT* first_point; int hull_dim; } qhT;
+typedef struct qhT {
+  jmp_buf errexit; boolT NOerrexit; int num_vertices; int num_facets; vertexT* vertex_list; facetT* facet_list;
+  pointT* first_point; int hull_dim;
+  // stand-in state
+  int npoint; int max_added; void** blocks; int nblocks;
+} qhT;
 #define FORALLvertices for (vertex = qh->vertex_list; vertex && vertex->next; vertex = vertex->next)
 #define FORALLfacets for (facet = qh->facet_list; facet && facet->next; facet = facet->next)
 #define FOREACHsetelement_(type, set, variable) if (((variable= NULL), set)) for (variable##p= (type **)&((set)->e[0].p); (variable= *variable##p++);)
-inline void qh_zero(qhT* qh, FILE*){ qh->NOerrexit=1; qh->num_vertices=qh->num_facets=0; qh->vertex_list=0; qh->facet_list=0; }
-inline void qh_init_A(qhT*, FILE*, FILE*, FILE*, int, char**){}
-inline void qh_initflags(qhT*, char*){}
-inline void qh_init_B(qhT*, coordT*, int, int, boolT){}
-inline void qh_qhull(qhT* qh){ longjmp(qh->errexit, 1); }
-inline void qh_triangulate(qhT*){}
-inline void qh_vertexneighbors(qhT*){}
-inline int qh_pointid(qhT*, pointT*){return -1;}
-inline void qh_freeqhull(qhT*, boolT){}
-inline void qh_memfreeshort(qhT*, int* c, int* t){*c=0;*t=0;}
+}
+
+namespace qhstub {
+struct Face { int v[3]; double n[3], d; bool alive; };
+inline void sub(const double* a, const double* b, double* r) { r[0] = a[0] - b[0]; r[1] = a[1] - b[1]; r[2] = a[2] - b[2]; }
+inline void cross(const double* a, const double* b, double* r) { r[0] = a[1] * b[2] - a[2] * b[1]; r[1] = a[2] * b[0] - a[0] * b[2]; r[2] = a[0] * b[1] - a[1] * b[0]; }
+inline double dot(const double* a, const double* b) { return a[0] * b[0] + a[1] * b[1] + a[2] * b[2]; }
+inline void* track(qhT* qh, void* p) {
+  qh->blocks = (void**)realloc(qh->blocks, sizeof(void*) * (size_t)(qh->nblocks + 1));
+  qh->blocks[qh->nblocks++] = p;
+  return p;
+}
+inline setT* make_set(qhT* qh, int n) {
+  setT* s = (setT*)track(qh, calloc(1, sizeof(setT) + sizeof(void*) * (size_t)(n + 1)));
+  s->maxsize = n;
+  return s;
+}
+// returns false if the input is degenerate (no 3-D hull)
+inline bool hull(const double* P0, int n, int max_added, std::vector<Face>& F) {
+  if (n < 4) return false;
+  // "joggle" (cf. qhull QJ): all topological decisions are taken on a deterministically perturbed private copy of
+  // the input (relative 1e-6), so exactly coplanar, collinear or coincident inputs (grids, cone bases, poles) never
+  // produce zero-area facets or inconsistent visibility; the facets index the original points
+  std::vector<double> Pj((size_t)3 * n);
+  {
+    double lo0[3] = {P0[0], P0[1], P0[2]}, hi0[3] = {P0[0], P0[1], P0[2]};
+    for (int i = 1; i < n; i++) for (int k = 0; k < 3; k++) { if (P0[3 * i + k] < lo0[k]) lo0[k] = P0[3 * i + k]; if (P0[3 * i + k] > hi0[k]) hi0[k] = P0[3 * i + k]; }
+    double dg = std::sqrt((hi0[0] - lo0[0]) * (hi0[0] - lo0[0]) + (hi0[1] - lo0[1]) * (hi0[1] - lo0[1]) + (hi0[2] - lo0[2]) * (hi0[2] - lo0[2]));
+    unsigned long long st = 0x9E3779B97F4A7C15ULL;
+    for (int i = 0; i < 3 * n; i++) { st ^= st << 13; st ^= st >> 7; st ^= st << 17; double u = (double)(st >> 11) / 9007199254740992.0 - 0.5; Pj[(size_t)i] = P0[i] + 2e-6 * dg * u; }
+  }
+  const double* P = Pj.data();
+  // scale for the epsilon
+  double lo[3] = {P[0], P[1], P[2]}, hi[3] = {P[0], P[1], P[2]};
+  for (int i = 1; i < n; i++) for (int k = 0; k < 3; k++) { if (P[3 * i + k] < lo[k]) lo[k] = P[3 * i + k]; if (P[3 * i + k] > hi[k]) hi[k] = P[3 * i + k]; }
+  double diag = std::sqrt((hi[0] - lo[0]) * (hi[0] - lo[0]) + (hi[1] - lo[1]) * (hi[1] - lo[1]) + (hi[2] - lo[2]) * (hi[2] - lo[2]));
+  if (!(diag > 0)) return false;
+  double eps = 1e-13 * diag;
+  // initial simplex: extreme points along x, furthest from it, furthest from the line, furthest from the plane
+  int i0 = 0, i1 = 0;
+  for (int i = 1; i < n; i++) { if (P[3 * i] < P[3 * i0]) i0 = i; if (P[3 * i] > P[3 * i1]) i1 = i; }
+  if (i0 == i1) { double best = -1; for (int i = 0; i < n; i++) { double d[3]; sub(P + 3 * i, P + 3 * i0, d); double l = dot(d, d); if (l > best) { best = l; i1 = i; } } }
+  double e1[3]; sub(P + 3 * i1, P + 3 * i0, e1);
+  if (dot(e1, e1) <= eps * eps) return false;
+  int i2 = -1; double best = eps * std::sqrt(dot(e1, e1));
+  for (int i = 0; i < n; i++) { double d[3], c[3]; sub(P + 3 * i, P + 3 * i0, d); cross(e1, d, c); double l = std::sqrt(dot(c, c)); if (l > best) { best = l; i2 = i; } }
+  if (i2 < 0) return false;
+  double e2[3], nn[3]; sub(P + 3 * i2, P + 3 * i0, e2); cross(e1, e2, nn);
+  double nl = std::sqrt(dot(nn, nn));
+  int i3 = -1; best = eps * nl;
+  for (int i = 0; i < n; i++) { double d[3]; sub(P + 3 * i, P + 3 * i0, d); double l = std::fabs(dot(nn, d)); if (l > best) { best = l; i3 = i; } }
+  if (i3 < 0) return false;
+  double cen[3];
+  for (int k = 0; k < 3; k++) cen[k] = (P[3 * i0 + k] + P[3 * i1 + k] + P[3 * i2 + k] + P[3 * i3 + k]) / 4;
+  auto add_face = [&](int a, int b, int c) {
+    Face f; f.v[0] = a; f.v[1] = b; f.v[2] = c; f.alive = true;
+    double u[3], w[3]; sub(P + 3 * b, P + 3 * a, u); sub(P + 3 * c, P + 3 * a, w); cross(u, w, f.n);
+    double l = std::sqrt(dot(f.n, f.n)); if (l > 0) { f.n[0] /= l; f.n[1] /= l; f.n[2] /= l; }
+    f.d = dot(f.n, P + 3 * a);
+    if (dot(f.n, cen) - f.d > 0) { std::swap(f.v[1], f.v[2]); f.n[0] = -f.n[0]; f.n[1] = -f.n[1]; f.n[2] = -f.n[2]; f.d = -f.d; }   // outward, counter-clockwise
+    F.push_back(f);
+  };
+  add_face(i0, i1, i2); add_face(i0, i1, i3); add_face(i0, i2, i3); add_face(i1, i2, i3);
+  std::vector<char> used((size_t)n, 0);
+  used[i0] = used[i1] = used[i2] = used[i3] = 1;
+  int added = 0;
+  for (int step = 0;; step++) {
+    int p = -1;
+    if (max_added >= 0) {
+      if (added >= max_added) break;
+      // furthest outside point over all facets (qhull Q9)
+      double far = eps;
+      for (int i = 0; i < n; i++) { if (used[i]) continue; for (auto& f : F) { if (!f.alive) continue; double d = dot(f.n, P + 3 * i) - f.d; if (d > far) { far = d; p = i; } } }
+      if (p < 0) break;
+    } else {
+      if (step >= n) break;
+      p = step;
+      if (used[p]) continue;
+    }
+    used[p] = 1;
+    // visible facets
+    std::vector<int> vis;
+    for (size_t k = 0; k < F.size(); k++) if (F[k].alive && dot(F[k].n, P + 3 * p) - F[k].d > eps) vis.push_back((int)k);
+    if (vis.empty()) continue;
+    // horizon: directed edges of visible facets whose reverse is not an edge of a visible facet
+    std::vector<std::pair<int, int>> edges;
+    for (int k : vis) for (int e = 0; e < 3; e++) edges.push_back({F[k].v[e], F[k].v[(e + 1) % 3]});
+    std::vector<std::pair<int, int>> horizon;
+    for (auto& ed : edges) { bool rev = false; for (auto& o : edges) if (o.first == ed.second && o.second == ed.first) { rev = true; break; } if (!rev) horizon.push_back(ed); }
+    for (int k : vis) F[k].alive = false;
+    for (auto& ed : horizon) add_face(ed.first, ed.second, p);
+    added++;
+    // compact now and then
+    if (F.size() > 4096) { std::vector<Face> G; for (auto& f : F) if (f.alive) G.push_back(f); F.swap(G); }
+  }
+  std::vector<Face> G; for (auto& f : F) if (f.alive) G.push_back(f); F.swap(G);
+  return F.size() >= 4;
+}
+}  // namespace qhstub
+
+extern "C" {
+inline void qh_zero(qhT* qh, FILE*) { qh->NOerrexit = 1; qh->num_vertices = qh->num_facets = 0; qh->vertex_list = 0; qh->facet_list = 0; qh->first_point = 0; qh->npoint = 0; qh->max_added = -1; qh->blocks = 0; qh->nblocks = 0; qh->hull_dim = 3; }
+inline void qh_init_A(qhT*, FILE*, FILE*, FILE*, int, char**) {}
+inline void qh_initflags(qhT* qh, char* opt) { const char* t = opt ? strstr(opt, " TA") : 0; qh->max_added = t ? atoi(t + 3) : -1; if (t && qh->max_added < 0) qh->max_added = 0; }
+inline void qh_init_B(qhT* qh, coordT* points, int numpoints, int dim, boolT) { qh->first_point = points; qh->npoint = numpoints; qh->hull_dim = dim; }
+inline void qh_qhull(qhT* qh) {
+  std::vector<qhstub::Face> F;
+  if (qh->hull_dim != 3 || !qhstub::hull(qh->first_point, qh->npoint, qh->max_added, F)) longjmp(qh->errexit, 1);
+  {
+    // self-check: a closed triangulated surface (every directed edge exactly once, with its reverse); otherwise report a
+    // qhull error (the model is then rejected by the compiler, and skipped by the harness) rather than hand MuJoCo a bad graph
+    std::vector<std::pair<int, int>> ed;
+    for (auto& f : F) for (int k = 0; k < 3; k++) ed.push_back({f.v[k], f.v[(k + 1) % 3]});
+    std::sort(ed.begin(), ed.end());
+    bool ok = true;
+    for (size_t i = 0; i < ed.size() && ok; i++) {
+      if (i && ed[i] == ed[i - 1]) ok = false;
+      if (ed[i].first == ed[i].second || !std::binary_search(ed.begin(), ed.end(), std::make_pair(ed[i].second, ed[i].first))) ok = false;
+    }
+    if (!ok) longjmp(qh->errexit, 1);
+  }
+  int n = qh->npoint;
+  std::vector<int> vid((size_t)n, -1);
+  int nv = 0;
+  for (auto& f : F) for (int k = 0; k < 3; k++) if (vid[f.v[k]] < 0) vid[f.v[k]] = 0;
+  for (int i = 0; i < n; i++) if (vid[i] == 0) vid[i] = nv++;
+  // vertices in increasing point id, then a sentinel
+  vertexT* verts = (vertexT*)qhstub::track(qh, calloc((size_t)nv + 1, sizeof(vertexT)));
+  for (int i = 0, k = 0; i < n; i++) if (vid[i] >= 0) { verts[k].point = qh->first_point + 3 * i; verts[k].id = (unsigned)k; k++; }
+  for (int k = 0; k < nv; k++) { verts[k].next = &verts[k + 1]; verts[k + 1].previous = &verts[k]; }
+  facetT* facets = (facetT*)qhstub::track(qh, calloc(F.size() + 1, sizeof(facetT)));
+  std::vector<int> deg((size_t)nv, 0);
+  for (size_t k = 0; k < F.size(); k++) {
+    facets[k].id = (unsigned)k; facets[k].toporient = 0;
+    facets[k].vertices = qhstub::make_set(qh, 3);
+    for (int j = 0; j < 3; j++) { facets[k].vertices->e[j].p = &verts[vid[F[k].v[j]]]; deg[vid[F[k].v[j]]]++; }
+    facets[k].next = &facets[k + 1]; facets[k + 1].previous = &facets[k];
+  }
+  for (int k = 0; k < nv; k++) verts[k].neighbors = qhstub::make_set(qh, deg[k]);
+  std::vector<int> fill((size_t)nv, 0);
+  for (size_t k = 0; k < F.size(); k++) for (int j = 0; j < 3; j++) { int v = vid[F[k].v[j]]; verts[v].neighbors->e[fill[v]++].p = &facets[k]; }
+  qh->vertex_list = verts; qh->facet_list = facets; qh->num_vertices = nv; qh->num_facets = (int)F.size();
+}
+inline void qh_triangulate(qhT*) {}
+inline void qh_vertexneighbors(qhT*) {}
+inline int qh_pointid(qhT* qh, pointT* p) { if (!p || !qh->first_point) return -1; long off = (long)(p - qh->first_point); return off % 3 ? -1 : (int)(off / 3); }
+inline void qh_freeqhull(qhT* qh, boolT) { for (int i = 0; i < qh->nblocks; i++) free(qh->blocks[i]); free(qh->blocks); qh->blocks = 0; qh->nblocks = 0; qh->vertex_list = 0; qh->facet_list = 0; }
+inline void qh_memfreeshort(qhT*, int* c, int* t) { *c = 0; *t = 0; }
 }
